@@ -27,6 +27,10 @@ MUTANTS = [
     m("c09-no-invalidation", "C09", "R4", ST, "            for dep in self._dependencies[name]:\n                self._cache[dep] = None\n", ""),
     m("c09-pickle-key-renamed", "C09", "R5", ST, '            "cache": {k: v', '            "cached": {k: v'),
     m("c09-pickle-swap", "C09", "R5", ST, 'self.__dict__["_variables"] = state["variables"]\n        self.__dict__["_dependencies"] = state["dependencies"]', 'self.__dict__["_variables"] = state["dependencies"]\n        self.__dict__["_dependencies"] = state["variables"]'),
+    m("c09-key-without-system-id", "C09", "R6", ST, '    return (f"{type(system).__name__}.{method}", id(system))', '    return f"{type(system).__name__}.{method}"'),
+    m("c09-no-registration", "C09", "R6", ST, "            if key not in state._cache:\n                for dep in depends_on:\n                    state._dependencies[dep].add(key)\n            if key not in state._cache or state._cache[key] is None:", "            if key not in state._cache or state._cache[key] is None:"),
+    m("c09-marker-not-recognised", "C09", "R6", ST, "            if key not in state._cache or state._cache[key] is None:\n                state._cache[key] = method(self, state)", "            if key not in state._cache:\n                state._cache[key] = method(self, state)"),
+    m("c09-aux-keys-not-registered", "C09", "R6", ST, "            for _i, key in enumerate(keys):\n                if key not in state._cache:\n                    for dep in depends_on:\n                        state._dependencies[dep].add(key)", "            if prim_key not in state._cache:\n                for dep in depends_on:\n                    state._dependencies[dep].add(prim_key)"),
     # ---- C09 R7
     m("c09-inplace-subscript", "C09", "R7", S, "        state.pos += dt * self.dh2_dmom(state)", "        state.pos[:] = state.pos + dt * self.dh2_dmom(state)"),
     m("c09-inplace-alias", "C09", "R7", I, "        mom_init = state.mom.copy()\n        state.mom -= time_step * self.system.dh2_dpos(state)", "        mom_init = state.mom.copy()\n        mom = state.mom\n        mom -= time_step * self.system.dh2_dpos(state)"),
